@@ -162,7 +162,7 @@ func value(v interface{}, depth int) any {
 		}
 		return numOf(Dec(x))
 	case time.Time:
-		return T{"time", x.UnixMilli()}
+		return TimeValue(x)
 	case context.Context:
 		return T{"ctx"}
 	}
@@ -345,4 +345,18 @@ func snapshot(sb *strings.Builder, rv reflect.Value, depth int) {
 	default:
 		fmt.Fprintf(sb, "%s(%v)", rv.Kind(), rv)
 	}
+}
+
+// TimeValue projects a time as <<"time", days, ms, off>>: the instant as whole days and
+// milliseconds of the day since the Unix epoch (UTC) and the zone offset Go reports for it.
+func TimeValue(x time.Time) any {
+	ms := x.UnixMilli()
+	days := ms / 86400000
+	rem := ms % 86400000
+	if rem < 0 {
+		rem += 86400000
+		days--
+	}
+	_, off := x.Zone()
+	return T{"time", days, rem, int64(off)}
 }
